@@ -150,23 +150,37 @@ def check(run):
                 if st.get("k") in ("IfCond", "LoopHead", "SwitchHead"):
                     continue
                 if any(x is fw[0] for x in ir.walk(st)) if fw else False:
-                    # guard must be (ret == OK || ret == END)
-                    parts = []
-                    for a in conjuncts(g):
-                        parts += list(a[1:]) if a[0] == "or" else [a]
-                    vals = set()
-                    for p_ in parts:
-                        if p_[0] == "cmp" and p_[1] == "==":
-                            for s_ in (p_[2], p_[3]):
-                                if s_.lstrip("-").isdigit():
-                                    vals.add(int(s_))
-                        if p_[0] == "not" and p_[1][0] == "nz":
-                            vals.add(0)
-                    okc = vals == set(sp["ok"])
-                    if not okc:
-                        why = "output is forwarded when the return code is in %s; only %s may be accepted" % (sorted(vals), sorted(sp["ok"].values()))
+                    # the set of return codes under which the output is forwarded: tabulate the guard over the code's
+                    # values (early-exit guard clauses, == chains and != chains all reduce to the same set)
+                    keys = set()
+                    for a_ in ir.walk_formula(g):
+                        if a_[0] == "cmp":
+                            keys |= set(x_ for x_ in (a_[2], a_[3]) if not x_.lstrip("-").isdigit())
+                        elif a_[0] == "nz":
+                            keys.add(a_[1] if isinstance(a_[1], str) else ir.path_str(a_[1]))
+                    vals = None
+                    for key_ in sorted(keys):
+                        acc = set()
+                        unknown = False
+                        for v_ in range(-12, 20):
+                            r_ = ir.eval_formula(g, {key_: v_})
+                            if r_ is None:
+                                unknown = True
+                                break
+                            if r_:
+                                acc.add(v_)
+                        if not unknown:
+                            vals = acc
+                            break
+                    if vals is None:
+                        okc = None
+                        why = "cannot tabulate the guard %s of the forwarding call over the return code" % show_f(g)
+                    else:
+                        okc = vals == set(sp["ok"])
+                        if not okc:
+                            why = "output is forwarded when the return code is in %s; only %s may be accepted" % (sorted(vals), sorted(sp["ok"].values()))
             throws = [n for n in ir.walk(step["body"]) if n.get("k") == "Throw"]
-            okc = okc and len(throws) >= 1
+            okc = (okc and len(throws) >= 1) if okc is not None else None
         run.ob("R14.3", "%s::%s:only-ok-or-end" % (tag, sp["step"]), okc, step, step["line"],
                "only %s are accepted; everything else throws" % "/".join(sp["ok"].values()) if okc else why)
 
